@@ -26,6 +26,22 @@ def pid_of(term):
     return None
 
 
+PRESENCE_PRESERVING = ('as_ref', 'as_mut', 'as_deref', 'as_deref_mut', 'clone', 'cloned', 'copied', 'map', 'inspect', 'iter', 'into_iter', 'as_slice', 'ok_or', 'ok_or_else', 'ok',
+                       'unwrap', 'expect', 'as_pin_ref')
+
+
+def _calls(t, d=0):
+    out = []
+    if d > 40 or not isinstance(t, tuple):
+        return out
+    if t and t[0] == 'call':
+        out.append(t)
+    for x in t:
+        if isinstance(x, tuple):
+            out.extend(_calls(x, d + 1))
+    return out
+
+
 def emissions(fx, body):
     """[(pid, wire type, multiplicity, source field names, decisive value conditions, where)] for Parameter::new calls in body (+closures)."""
     out = []
@@ -73,6 +89,14 @@ def emissions(fx, body):
                     if term_has(base, lambda y: y[0] == 'call' and (y[1].endswith('Try::branch') or y[1].endswith('write_to_vec_with_ctx') or y[1].endswith('pl_cdr_rep_id_to_speedy'))) \
                             or lab in ('Continue', 'Break'):
                         continue            # error propagation
+                    # Option combinators that keep presence as it is; any other std Option/Result combinator in the tested value
+                    # (filter, and_then, take_if, xor, zip, then_some ...) makes the emission depend on the field's value
+                    bad = [y[1] for y in _calls(base) if y[1].startswith(('std::option::Option::', 'core::option::Option::', 'std::result::Result::', 'core::result::Result::',
+                                                                         'std::bool::', 'core::bool::'))
+                           and y[1].rsplit('::', 1)[-1] not in PRESENCE_PRESERVING]
+                    if bad:
+                        value_conds.append('presence tested through %s' % ', '.join(sorted(set(x.rsplit('::', 1)[-1] for x in bad))))
+                        continue
                     presence = True         # Option / enum variant of a field
                     continue
                 if term_has(cond, lambda y: y[0] == 'call' and ('log::' in y[1] or y[1].startswith('log'))) or term_has(cond, lambda y: y[0] == 'const' and 'LevelFilter' in str(y[2])):
